@@ -2,9 +2,9 @@ package props
 
 import (
 	"bytes"
-	"errors"
 	"encoding/base64"
 	"encoding/json"
+	"errors"
 	"fmt"
 	"math/rand"
 	"os"
@@ -447,13 +447,17 @@ func c15Degenerate(c *core.Ctx, e *c15Env, fast []gen.KeyPair) {
 		setFnKey(ch, func(k *intoto.Key) { k.KeyType, k.Scheme, k.KeyVal.Public = "ed25519", "ed25519", pemOf(rsaKey) })
 	})
 	add("functionary key: ecdsa type with RSA PEM", func(ch *gen.Chain) {
-		setFnKey(ch, func(k *intoto.Key) { k.KeyType, k.Scheme, k.KeyVal.Public = "ecdsa", "ecdsa-sha2-nistp256", pemOf(rsaKey) })
+		setFnKey(ch, func(k *intoto.Key) {
+			k.KeyType, k.Scheme, k.KeyVal.Public = "ecdsa", "ecdsa-sha2-nistp256", pemOf(rsaKey)
+		})
 	})
 	add("functionary key: rsa type with ECDSA PEM", func(ch *gen.Chain) {
 		setFnKey(ch, func(k *intoto.Key) { k.KeyType, k.Scheme = "rsa", "rsassa-pss-sha256" })
 	})
 	add("functionary key: rsa type with Ed25519 hex", func(ch *gen.Chain) {
-		setFnKey(ch, func(k *intoto.Key) { k.KeyType, k.Scheme, k.KeyVal.Public = "rsa", "rsassa-pss-sha256", edKey.Pub.KeyVal.Public })
+		setFnKey(ch, func(k *intoto.Key) {
+			k.KeyType, k.Scheme, k.KeyVal.Public = "rsa", "rsassa-pss-sha256", edKey.Pub.KeyVal.Public
+		})
 	})
 	add("functionary key: truncated PEM", func(ch *gen.Chain) {
 		setFnKey(ch, func(k *intoto.Key) { k.KeyVal.Public = k.KeyVal.Public[:len(k.KeyVal.Public)/2] })
